@@ -567,6 +567,7 @@ fn function_call_or_string_real(
         match call_args(rest) {
             Ok((rest, args)) => {
                 let pos = input.up_to(&rest).to_owned();
+                let args = args.trailing_comma_only_for_var(&name);
                 return Ok((rest, Value::Call(name, Box::new(args), pos)));
             }
             Err(error) => {
